@@ -78,3 +78,70 @@ Proof.
   rewrite Pa in E1. rewrite Pb in E2. injection E1 as <-. injection E2 as <-.
   rewrite S1 in S2. now injection S2.
 Qed.
+
+(* ---- single faults ---- *)
+Lemma replace_kid_nth f l : forall i j,
+  nth_error (replace_kid f l i) j = if Nat.eqb j i then option_map f (nth_error l i) else nth_error l j.
+Proof.
+  induction l as [|c r IH]; intros i j.
+  - cbn [replace_kid]. destruct i; cbn [replace_kid]; destruct (Nat.eqb j _); destruct j; reflexivity.
+  - destruct i as [|i]; cbn [replace_kid].
+    + destruct j as [|j]; reflexivity.
+    + destruct j as [|j]; cbn [nth_error Nat.eqb]; [reflexivity | apply IH].
+Qed.
+
+Theorem single_fault_local chk : forall d t s' a,
+  (forall b, ~ err_at chk t b) -> err_at chk (replace_at t d s') a -> prefix a d \/ prefix d a.
+Proof.
+  induction d as [|i r IH]; intros t s' a Hvalid Herr.
+  - right. exists a. reflexivity.
+  - destruct a as [|j b]; [left; exists (i :: r); reflexivity|].
+    destruct Herr as (s & Hs & Hc). cbn [replace_at subtree kids_of] in Hs.
+    rewrite replace_kid_nth in Hs. destruct (Nat.eqb_spec j i) as [->|Hne].
+    + destruct (nth_error (kids_of t) i) as [c|] eqn:Hc'; cbn [option_map] in Hs; [|discriminate].
+      assert (Hvc : forall b', ~ err_at chk c b').
+      { intros b' (s0 & Hs0 & Hc0). apply (Hvalid (i :: b')). exists s0. split; [|exact Hc0].
+        cbn [subtree]. now rewrite Hc'. }
+      destruct (IH c s' b Hvc) as [[z Hz]|[z Hz]].
+      * exists s. split; assumption.
+      * left. exists z. now rewrite Hz.
+      * right. exists z. now rewrite Hz.
+    + exfalso. apply (Hvalid (j :: b)). exists s. split; [|exact Hc]. cbn [subtree]. exact Hs.
+Qed.
+
+(* the location of a fault is reported at the damaged node when its own check fails *)
+Theorem fault_reported_at_node chk : forall d t s' old,
+  subtree t d = Some old -> chk s' = false -> err_at chk (replace_at t d s') d.
+Proof.
+  induction d as [|i r IH]; intros t s' old Hsub Hchk.
+  - exists s'. split; [reflexivity | exact Hchk].
+  - cbn [subtree] in Hsub. destruct (nth_error (kids_of t) i) as [c|] eqn:Hc; [|discriminate].
+    destruct (IH c s' old Hsub Hchk) as (s & Hs & Hcs).
+    exists s. split; [|exact Hcs]. cbn [replace_at subtree kids_of]. rewrite replace_kid_nth, Nat.eqb_refl, Hc. exact Hs.
+Qed.
+
+(* a check that looks outside the node's subtree (an IDREF resolved against the whole document) is not local *)
+Definition err_at_ctx (chk : tree -> tree -> bool) (t : tree) (a : addr) : Prop :=
+  exists s, subtree t a = Some s /\ chk t s = false.
+Definition idref_chk (root s : tree) : bool :=
+  if N.eqb (tag_of s) 9 then existsb (fun c => N.eqb (tag_of c) 7) (kids_of root) else true.
+
+Theorem context_check_not_local :
+  exists t d s' a,
+    (forall b, ~ err_at_ctx idref_chk t b) /\ err_at_ctx idref_chk (replace_at t d s') a /\
+    ~ prefix a d /\ ~ prefix d a.
+Proof.
+  exists (Node 1 [Node 7 []; Node 9 []]), [0], (Node 8 []), [1]. repeat split.
+  - intros b (s & Hs & Hc). destruct b as [|i b].
+    + cbn in Hs. injection Hs as <-. cbn in Hc. discriminate.
+    + destruct i as [|[|i]]; destruct b as [|j b]; cbn in Hs.
+      * injection Hs as <-. cbn in Hc. discriminate.
+      * destruct j; discriminate.
+      * injection Hs as <-. cbn in Hc. discriminate.
+      * destruct j; discriminate.
+      * destruct i; discriminate.
+      * destruct i; discriminate.
+  - exists (Node 9 []). split; reflexivity.
+  - intros [z Hz]. discriminate.
+  - intros [z Hz]. discriminate.
+Qed.
